@@ -89,6 +89,18 @@ theorem loop_term_emitted {V} (cond : Tag → Bool) (body : Tag → V) (p : Tag)
   rw [cycle_eq cond body p n htrue hfalse m hm fuel hf]
   simp [instEvents]
 
+/-- **provenance recorded by the loop output step.** Whenever a body output or an iteration termination makes the step emit for
+    an instance, the inputs recorded for the emitted token (`input_token_ids`) are exactly the body outputs collected for that
+    instance — the tokens of which the output is `_process_output` (compared with the database by the K-check). -/
+theorem loop_output_provenance {V} (m : Method) (s : St V) (e : Ev V) (hq : s.terminated = none ∧ s.termKeys = [])
+    (hd : match e with | .term _ => False | _ => True) :
+    ∀ p ∈ provOfStep m s e, processOutput m p.1 p.2 ∈ (step m s e).out :=
+  fun p hp => (provOfStep_data m s e hq (by cases e <;> first | exact hd | trivial) p hp).1
+
+/-- non-vacuity: the iteration termination `0.1.2` arriving last completes instance `0.1`, whose provenance is its two body outputs -/
+example : (runProv .all ({} : St Nat) [.data ⟨[0, 1, 1], 5⟩, .data ⟨[0, 1, 0], 3⟩, .iterTerm [0, 1, 2]]).map (fun p => (p.1, p.2.length)) =
+    [([0, 1], 2)] := by decide
+
 /-- **the combinator step keeps reading while an instance iterates.** Once the first token of instance `p` has put
     `p` on the port's checklist, the step keeps creating `get` tasks for the port — even after the port's
     termination token (status COMPLETED; the step's `failed` flag not set) — until `IterationTerminationToken(p)` arrives. -/
